@@ -269,7 +269,7 @@ def rand_frame(r, ftype=None, rule=None, upid=None, tfdz_len=None, iz=-1, ocf=No
     return {"ftype": ftype, "rule": rule, "upid": r.choice(UPIDS) if upid is None else upid, "tfdz": rand_bytes(r, tfdz_len).hex(),
             "ptr": r.getrandbits(16) if ftype == "fixed" else None, "iz": None if iz is None else rand_bytes(r, iz).hex(), "ocf": rand_bytes(r, 4).hex() if ocf else None,
             "fecf": None if fecf is None else rand_bytes(r, fecf).hex(), "scid": r.getrandbits(16), "src_dest": r.getrandbits(1), "vcid": r.getrandbits(6), "map_id": r.getrandbits(4),
-            "bypass": r.getrandbits(1), "pcc": r.getrandbits(1), "vcf_len": n, "vcf_count": r.getrandbits(8 * n) if n else 0}
+            "bypass": r.getrandbits(1), "pcc": r.getrandbits(1), "vcf_len": n, "vcf_count": r.choice((0, 0, 1, (1 << 8 * n) - 1, r.getrandbits(8 * n), r.getrandbits(8 * n))) if n else 0}
 
 
 def selftest(ctx):
